@@ -55,8 +55,12 @@ def check_gate(chk, prog, eff, L, label, rule="C19.gate"):
                 S = e.res
                 break
         mallocs = pa.calls("_cbor_malloc")
-        if not mallocs:
-            # refused before allocating: what does the path know about size?
+        refused = pa.ret == ("c", 0) or st.known_null(pa.ret)
+        alloc_refused = any(st.known_null(m.res) for m in mallocs)
+        if refused and alloc_refused:
+            continue      # the allocator said no: allowed at any depth (C06)
+        if refused:
+            # refused by the push itself: what does the path know about size?
             eq, lo, hi, exc = _size_facts(st, S)
             if S is None:
                 refuse_limit.append(("all", None))
@@ -211,7 +215,7 @@ def run(ctx, chk):
                 if isinstance(p.operands[-1], Const) and p.operands[-1].v == 1:
                     nst += 1
                     chk.ob("C19.size-writer", "initialisation of a stack in %s" % f.name, ok, st.loc(), fn=f.name, key="szi:" + f.name)
-    chk.floor("C19.size-writer", "stores to the size field", nst, 3)
+    chk.floor("C19.size-writer", "stores to the size field", nst, 2)
 
     # openers: from the callback table of cbor_load
     load = prog.fn("cbor_load")
@@ -287,6 +291,26 @@ def run(ctx, chk):
     chk.rule("C19.refusal-justified", "a builder callback raises creation_failed (MEMERROR) only where a constructor, the stack push or an "
                                       "insertion failed: nesting within the limit is never refused by a guard of the callback's own")
     check_refusal_justified(chk, "C19.refusal-justified", prog, eff)
+    chk.rule("C19.memerror-source", "cbor_load reports MEMERROR only on a path on which the builder's creation_failed flag was read as set: the "
+                                    "loader itself never decides that a head nests too deep (shared clause of C05.codes)")
+    import paths as P_
+    import ownership as O__
+    lf_ = prog.fn("cbor_load")
+    ri_ = lf_.param_index("result")
+    code_off_ = prog.field_offset("cbor_load_result", "error") + prog.field_offset("cbor_error", "code")
+    cf_off_ = prog.field_offset("_cbor_decoder_context", "creation_failed")
+    MEM_ = prog.enum("cbor_error_code")["CBOR_ERR_MEMERROR"]
+    nmem_ = 0
+    for k_, pa_ in enumerate(P_.Executor(prog, eff, loop_bound=1).run("cbor_load")):
+        codes_ = [e for e in pa_.events if e.kind == "store" and P_.ptr_key(e.args[0]) == (("arg", ri_), code_off_)]
+        if not codes_ or codes_[-1].args[1] != ("c", MEM_):
+            continue
+        nmem_ += 1
+        flag_ = any(t[0] == "ld" and t[2] == cf_off_ and isinstance(t[1], tuple) and t[1][0] == "alloca" and truth for t, truth, _ in pa_.facts)
+        chk.ob("C19.memerror-source", "cbor_load path %d: MEMERROR follows the creation_failed flag" % k_, flag_, codes_[-1].ins.loc(), fn=lf_.name,
+               key="memsrc:%d" % k_, detail="" if flag_ else "MEMERROR is reported although creation_failed was not set: the loader refuses the head on "
+               "its own (e.g. by looking at the stack depth and the next byte)", path=pa_.block_lines() if not flag_ else None)
+    chk.floor("C19.memerror-source", "paths of cbor_load reporting MEMERROR", nmem_, 1)
     chk.rule("C19.copy-total", "copying a decoded tree completes: cbor_copy (helpers included) returns NULL only where a callee that "
                                "can fail has failed - never because of how deep the tree is (shared with C11.total)")
     chk.rule("C19.serialize-total", "serializing a decoded tree completes: a serializer returns 0 only where a nested encoder/serializer "
